@@ -46,6 +46,45 @@ def ladder(rm: REModel):
     return out
 
 
+LEGAL_EXIT_STATUS = ("success", "abort", "fail")  # event-model's RunStop schema
+
+
+def control_exception_statuses_legal(ctx, rm: REModel, rule: str):
+    """run_wrapper closes the run with `e.exit_status` for EVERY RunEngineControlException: each class of that family (whatever
+    it is called, wherever in the package) must carry one of the three statuses a RunStop may have - anything else makes
+    ComposeStop fail after it has latched "already composed", and the run never gets its RunStop."""
+    repo = rm.repo
+    fam = {}
+    changed = True
+    classes = {k: c for k, c in repo.classes.items()}
+    while changed:
+        changed = False
+        for k, c in classes.items():
+            if k in fam:
+                continue
+            bases = [b.split(".")[-1] for b in c.base_names]
+            if "RunEngineControlException" in bases or any(b in {x.split(":")[-1].split(".")[-1] for x in fam} for b in bases):
+                fam[k] = c
+                changed = True
+    n = 0
+    for k, c in sorted(fam.items()):
+        status, cur = None, c
+        seen = set()
+        while cur is not None and id(cur) not in seen and status is None:
+            seen.add(id(cur))
+            for s_ in cur.node.body:
+                if isinstance(s_, (ast.Assign, ast.AnnAssign)) and A.chain(s_.targets[0] if isinstance(s_, ast.Assign) else s_.target) == "exit_status":
+                    status = A.const_str(s_.value)
+            nxt = [x for kk, x in classes.items() if kk.split(":")[-1].split(".")[-1] in [b.split(".")[-1] for b in cur.base_names] and kk in fam]
+            cur = nxt[0] if nxt else None
+        ok = status in LEGAL_EXIT_STATUS
+        n += 1
+        ctx.ob(rule, f"{k}.exit_status is a legal RunStop status", ok,
+               "" if ok else f"exit_status is {status!r}: run_wrapper passes it to close_run, the stop document fails validation after ComposeStop has latched, and the run is "
+               "left without a RunStop", nontrivial=True, where=c.module.path if hasattr(c, "module") else "")
+    ctx.ob(rule, "bluesky: the RunEngineControlException family was found", n >= 2, "" if n >= 2 else "control exception classes not found (anchor lost)")
+
+
 def d1_tables(ctx, rm: REModel):
     lad = ladder(rm)
     ctx.require(len(lad) >= 2, "anchor vanished: the except ladder of RunEngine._run")
@@ -125,6 +164,7 @@ def d1_tables(ctx, rm: REModel):
         ctx.ob("C02.D1-control-exception-status", f"{UT}:{clsname}.exit_status", ok, "" if ok else f"{got!r}, expected {want!r}")
         ok = "RunEngineControlException" in c.base_names
         ctx.ob("C02.D1-control-exception-status", f"{UT}:{clsname} bases", ok, "" if ok else "no longer a RunEngineControlException")
+    control_exception_statuses_legal(ctx, rm, "C02.D1-control-exception-status")
     # run_wrapper: except_plan / else_plan
     rw = rm.repo.func(PP, "run_wrapper")
     ep = rm.repo.func(PP, "run_wrapper.except_plan")
